@@ -4,6 +4,18 @@ import json, os
 ROOT = os.path.dirname(os.path.dirname(os.path.abspath(__file__)))
 
 CHECKS = {
+ 'C05': dict(level='exploration', design='DESIGN.md §5 C05',
+   technique='CrossHair symbolic execution of evaluate_expression: typed symbolic operands per operator/kind pair and per library function (wrong-kind vectors and valid-kind symbolic arguments), z3 decides each path',
+   text='For each arithmetic operator and ordered pair of operand kinds (unbounded symbolic ints, bools, short strings, solver-indexed adversarial floats incl. inf/nan/-0.0, 400-digit ints, boundary datetimes) CrossHair proves over all values that evaluate_expression returns a BareScript value or raises BareScriptRuntimeError; for each library function with an argument model it proves that every wrong-kind/missing/surplus argument vector yields the documented failure value with exactly one debug log line, and that valid-kind symbolic arguments never let a host exception escape.',
+   note='Trusted: CrossHair/z3; failure values read from the live value_args_validate calls. Stub: ValueArgsError message formatting. Deep recursion is a concrete by-product, not a solver verdict.'),
+ 'C08': dict(level='exploration', design='DESIGN.md §5 C08',
+   technique='CrossHair symbolic execution of execute_script on generator-enumerated jump-level models (batches sharing symbolic oracle bits), differential against an independent reference machine; condition-free lists swept natively',
+   text='Every statement list up to the length bound over {log, assign, jump, conditional jump, label (2 names, duplicates allowed), return, call of a one-level function} is built as a plain model and run by the real interpreter and by the reference machine; lists containing a conditional jump are executed by CrossHair with all condition outcomes symbolic (confirmed = agreement of result, log, globals, statement count, unchanged model and repeatability for every outcome sequence within the bound).',
+   note='Trusted: vf/hlib/refvm.py (first-label lookup, no jump across function boundary), CrossHair/z3. Bounds: length <= 3 (+ sample of 4) quick, <= 4 thorough; length 5-6 outside.'),
+ 'C20': dict(level='exploration', design='DESIGN.md §5 C20',
+   technique='CrossHair symbolic execution of the real interpreter running the shipped diff.bare; lines chosen by symbolic indices from an alphabet incl. the empty line, z3 enumerates the equality patterns path by path',
+   text='The shipped diff.bare is loaded through the CLI include fetcher and interpreted; per (left length, right length, input mode) CrossHair explores every choice of lines from the alphabet and checks block well-formedness, reconstruction of both inputs and no Add/Remove for identical inputs, for arrays and for LF/CRLF text. This is solver-driven exhaustive enumeration (the algorithm branches only on line comparisons); shipped includes parse/validate/lint clean is a concrete by-product.',
+   note='Trusted: CrossHair/z3 and the interpreter (checked by C01/C03/C08). Bounds: length pairs and alphabet stated in the evidence.'),
  'C01': dict(level='translation_validation', design='DESIGN.md §5 C01',
    technique='CrossHair symbolic execution of parse_script+execute_script per generated program, differential against a big-step reference interpreter over symbolic oracle bits, array lengths and condition values (z3 decides each path)',
    text='Each generated structured program (nesting shapes of the seven constructs with break/continue flavours, global and function scope, multi-function scripts, conditions of all nine value types) is lowered by the real parser and run by the real interpreter under CrossHair with every condition outcome, array length and condition value symbolic; a confirmed condition means return value, effect trace and final globals equal the big-step reading for ALL such inputs within the oracle bound. Shapes where `continue` binds to `while` are additionally checked against a model of known finding F7 so that any other divergence still alarms.',
